@@ -109,6 +109,9 @@ class C08:
                         ts.append(t)
                     d["targets"] = ts
             else:
+                # (a composite that also spells out empty component keys mixes the two kinds: rejected)
+                if rng.random() < 0.2:
+                    d[rng.choice(["targets", "stacks"])] = []
                 d["order"] = [{"group": [dict({"id": "a/b", "version": "1.0.0"}, **({"optional": rng.choice([True, False])} if rng.random() < 0.5 else {}))
                                          for _ in range(rng.randint(0, 2))]} for _ in range(rng.randint(1, 2))]
             self.maybe(rng, d, "metadata", self.meta(rng))
